@@ -241,6 +241,25 @@ fn hash_cases(b: &Base) -> Vec<Case> {
         }
         push("output region moved by one address".into(), "output-region-shift", p);
     }
+    // output segment declared over the last k program addresses, the page cut to the program cells: every
+    // needed address is present once, but the page is too short to hold program and output one after the other
+    {
+        let initial_pc = get_u64(&b.pi["segments"][0]["begin_addr"]);
+        let n_prog = (initial_fp - 2).saturating_sub(initial_pc) as usize;
+        if n_prog >= 2 && n_prog <= n {
+            let prog_end = initial_pc + n_prog as u64; // first address after the program
+            for k in [1u64, 2, (os - ob).max(1)] {
+                if k as usize > n_prog {
+                    continue;
+                }
+                let mut p = b.pi.clone();
+                p["segments"][2]["begin_addr"] = hexu(prog_end - k);
+                p["segments"][2]["stop_ptr"] = hexu(prog_end);
+                p["main_page"].as_array_mut().unwrap().truncate(n_prog);
+                push(format!("output over the last {} program addresses, page cut to the program", k), "output-overlaps-program", p);
+            }
+        }
+    }
     for (tag, f, d) in [("initial_pc+1", "begin_addr", 1i64), ("initial_pc-1", "begin_addr", -1), ("final_pc+1", "stop_ptr", 1), ("final_pc-1", "stop_ptr", -1)] {
         let mut p = b.pi.clone();
         let a = get_u64(&p["segments"][0][f]) as i64 + d;
@@ -269,11 +288,11 @@ fn hash_cases(b: &Base) -> Vec<Case> {
     out
 }
 
-fn run_validate(layout: &str, pi: &PublicInput, log_trace: u64) -> Verdict {
+pub fn run_validate(layout: &str, pi: &PublicInput, log_trace: u64) -> Verdict {
     let d = StarkDomains::new(fu(log_trace), fu(2));
     verdict(|| with_layout!(layout, L, L::validate_public_input(pi, &d)))
 }
-fn run_hashes(layout: &str, pi: &PublicInput) -> (Verdict, Option<(Felt, Felt)>) {
+pub fn run_hashes(layout: &str, pi: &PublicInput) -> (Verdict, Option<(Felt, Felt)>) {
     match panics::catch(|| with_layout!(layout, L, L::verify_public_input(pi))) {
         Ok(Ok(p)) => (Verdict::Ok, Some(p)),
         Ok(Err(e)) => (Verdict::Err(format!("{:?}", e).split('{').next().unwrap_or("").trim().to_string()), None),
